@@ -184,6 +184,35 @@ def _gen_tape(w, kind, uid):
         return {"kind": kind, "ops": ops, "mps": mps, "shots": None,
                 "cot": [round(w.uniform(-1, 1), 4) for _ in mps],
                 "tan": [round(w.uniform(-1, 1), 4) for _ in range(ntrain)]}
+    if kind == "dynamic":
+        # mid-circuit measurements, classically controlled gates, reset / postselection, finite shots: the
+        # device draws while it applies operations, not only when it measures
+        n = max(n, 2)
+        wires = list(range(n))
+        dyn = [["RY", [i], [qgen.rand_angle(w)]] for i in wires]
+        k = 0
+        for _ in range(w.randint(2, 5)):
+            r = w.random()
+            if r < 0.45 and k < 3:
+                dyn.append(["measure", w.choice(wires), w.random() < 0.3, (w.choice([0, 1]) if w.random() < 0.25 else None)])
+                k += 1
+            elif r < 0.75 and k > 0:
+                dyn.append(["cond", w.randrange(k), qgen.gen_ops(w, n, 1)[0]])
+            else:
+                dyn.extend(qgen.gen_ops(w, n, 1))
+        if k == 0:
+            dyn.append(["measure", w.choice(wires), False, None])
+        mps = [w.choice([["expval", qgen.gen_pauli_word(w, wires)], ["counts", sorted(w.sample(wires, w.randint(1, n)))],
+                         ["probs", sorted(w.sample(wires, w.randint(1, n)))]])]
+        return {"kind": kind, "dyn": dyn, "ops": [], "mps": mps, "shots": w.choice([1, 2, 5, 10, 17])}
+    if kind == "projector":
+        # a postselecting projector among the operations (what deferred measurements turn postselection
+        # into): with shots the device thins them with a binomial draw
+        ops = qgen.gen_ops(w, n, w.randint(1, 4))
+        ops.append(["Projector", [w.choice(wires)], [[w.randint(0, 1)]]])
+        ops.extend(qgen.gen_ops(w, n, w.randint(0, 2)))
+        mps = [w.choice([["expval", qgen.gen_pauli_word(w, wires)], ["counts", sorted(w.sample(wires, w.randint(1, n)))]])]
+        return {"kind": kind, "ops": ops, "mps": mps, "shots": w.choice([5, 10, 17, 50])}
     if kind == "invalid":  # a sampling measurement without shots: the device must raise
         return {"kind": kind, "ops": [["Hadamard", [0], []]], "mps": [["sample", [0]]], "shots": None}
     raise ValueError(kind)
@@ -209,18 +238,31 @@ def gen_case(streams, tier):
             method = w.choice(["compute_derivatives", "execute_and_compute_derivatives", "compute_vjp",
                                "execute_and_compute_vjp", "compute_jvp", "execute_and_compute_jvp"])
         nt = w.choice([1, 2, 3, 3, 4, 5, 6, 8, 10])
+        dyn_call = w.random() < 0.25  # batches with dynamic circuits
         tapes = []
         for ti in range(nt):
             if method == "execute":
-                kind = w.choice(["analytic", "analytic", "det", "det", "shots", "shots", "shots"])
+                kind = w.choice(["analytic", "analytic", "det", "det", "shots", "shots", "shots"]
+                                + (["dynamic", "dynamic", "projector"] if dyn_call else []))
             else:
                 kind = "diff"
             tapes.append(_gen_tape(w, kind, ti))
         if inject_invalid and method == "execute" and ci == 0:
             tapes[f.randrange(len(tapes))] = _gen_tape(w, "invalid", 0)
-        calls.append({"method": method, "tapes": tapes})
+        mcm_method = w.choice(["one-shot", "one-shot", "tree-traversal"])
+        if mcm_method == "tree-traversal":
+            # tree-traversal raises instead of returning NaN when postselection discards every shot
+            # (C21, KF-C21-2/-3): whether that happens depends on the draws, which serial and parallel
+            # execution may legitimately take differently, so it is kept out of this property's histories
+            for t in tapes:
+                for op in t.get("dyn", []):
+                    if op[0] == "measure":
+                        op[3] = None
+        calls.append({"method": method, "tapes": tapes, "mcm_method": mcm_method,
+                      "postselect_mode": w.choice([None, "hw-like", "fill-shots"])})
     entry = "device"
-    if all(c["method"] == "execute" for c in calls) and backend != "none" and w.random() < 0.3:
+    plain = not any(t["kind"] in ("dynamic", "projector") for c in calls for t in c["tapes"])
+    if all(c["method"] == "execute" for c in calls) and backend != "none" and w.random() < 0.3 and plain:
         entry = w.choice(["workflow_class", "workflow_str", "workflow_enum"])
     return {
         "dev_seed": w.randint(0, 2**31 - 1),
@@ -263,13 +305,15 @@ def _run_history(case, sched_seed, serial_ref=False, durations=None):
         if backend != "none":
             cls = backends.get_supported_backends()[backend]
         for call in case["calls"]:
-            tapes = [qgen.build_tape(t) for t in call["tapes"]]
+            tapes = [_build(t) for t in call["tapes"]]
             try:
                 m = call["method"]
+                mcm = qp.devices.MCMConfig(mcm_method=call.get("mcm_method"), postselect_mode=call.get("postselect_mode")) \
+                    if any(t["kind"] in ("dynamic", "projector") for t in call["tapes"]) else qp.devices.MCMConfig()
                 if serial_ref or backend == "none":
-                    cfg = qp.devices.ExecutionConfig()
+                    cfg = qp.devices.ExecutionConfig(mcm_config=mcm)
                 else:
-                    cfg = qp.devices.ExecutionConfig(executor_backend=cls)
+                    cfg = qp.devices.ExecutionConfig(executor_backend=cls, mcm_config=mcm)
                 if m == "execute":
                     if case["entry"] == "device" or serial_ref or backend == "none":
                         res = dev.execute(tapes, cfg)
@@ -357,6 +401,25 @@ def _check_det(tspec, res):
     return None
 
 
+def _build(t):
+    qp, qgen = _ENV["qp"], _ENV["qgen"]
+    if t["kind"] != "dynamic":
+        return qgen.build_tape(t)
+    with qp.queuing.AnnotatedQueue() as q:
+        ms = []
+        for op in t["dyn"]:
+            if op[0] == "measure":
+                ms.append(qp.measure(op[1], reset=op[2], postselect=op[3]))
+            elif op[0] == "cond":
+                g = op[2]
+                qp.cond(ms[op[1]], getattr(qp, g[0]))(*g[2], wires=g[1])
+            else:
+                qgen.build_op(op)
+        for m in t["mps"]:
+            qgen.build_mp(m)
+    return qp.tape.QuantumScript.from_queue(q, shots=t["shots"])
+
+
 _SEED_OBJECTS = {}
 
 
@@ -392,10 +455,20 @@ def run_case(case):
     ref, ref_info = _run_history(case, 0, serial_ref=True)
 
     # ---- O2: schedule independence / same seed => same results ----------------------------------
+    def _ident(a, b):
+        """Bit-identical results; NaN (every shot discarded by postselection) equals NaN."""
+        if isinstance(a, (list, tuple)) and isinstance(b, (list, tuple)):
+            return len(a) == len(b) and all(_ident(x, y) for x, y in zip(a, b))
+        if isinstance(a, dict) and isinstance(b, dict):
+            return a.keys() == b.keys() and all(_ident(a[k_], b[k_]) for k_ in a)
+        if isinstance(a, float) and isinstance(b, float) and a != a and b != b:
+            return True
+        return a == b
+
     base = runs[0][0]
     for k in range(1, len(runs)):
-        if runs[k][0] != base:
-            ci = next(i for i, (a, b) in enumerate(zip(base, runs[k][0])) if a != b)
+        if not _ident(runs[k][0], base):
+            ci = next(i for i, (a, b) in enumerate(zip(base, runs[k][0])) if not _ident(a, b))
             violations.append({
                 "klass": "schedule_dependent_result",
                 "sig": dict(sig_base, method=case["calls"][ci]["method"]),
@@ -464,6 +537,7 @@ def run_case(case):
         "executions_out_of_order": sum(1 for _, i in runs if i["inversions"]),
         "executions_with_interleaved_draws": sum(1 for _, i in runs if i["interleaved"]),
         "unseeded_generators": sum(i["unseeded"] for _, i in runs),
+        "dynamic_circuits": sum(1 for c in case["calls"] for t in c["tapes"] if t["kind"] in ("dynamic", "projector")),
         "deadlines_on_virtual_clock": sum(i.get("deadlines", 0) for _, i in runs),
         "deadlines_expired": sum(i.get("deadlines_expired", 0) for _, i in runs),
         "backend:" + case["backend"]: 1,
@@ -584,8 +658,10 @@ def _real_history(case):
     cls = backends.get_supported_backends()[case["backend"]]
     out = []
     for call in case["calls"]:
-        tapes = [qgen.build_tape(t) for t in call["tapes"]]
-        cfg = qp.devices.ExecutionConfig(executor_backend=cls)
+        tapes = [_build(t) for t in call["tapes"]]
+        mcm = qp.devices.MCMConfig(mcm_method=call.get("mcm_method"), postselect_mode=call.get("postselect_mode")) \
+            if any(t["kind"] in ("dynamic", "projector") for t in call["tapes"]) else qp.devices.MCMConfig()
+        cfg = qp.devices.ExecutionConfig(executor_backend=cls, mcm_config=mcm)
         try:
             m = call["method"]
             if m in ("execute", "compute_derivatives", "execute_and_compute_derivatives"):
